@@ -24,7 +24,8 @@ theorem facts_ok :
     (A.stopClients == "nilSafe" && A.stopCancelsThenWaits && A.stopClosesAfterWriters && S.preSeencheckGuard == "guarded" &&
      U.preprocessorAck == "cancellable" && U.archiverAck == "cancellable" && U.postprocessorAck == "cancellable" &&
      U.finisherAck == "cancellable" && P.stopOrderFreezeStagesSourceReactor && P.preSendsCancellable && P.archSendsCancellable &&
-     P.postSendsCancellable && P.archiveWaitsForItsCaptures) = true := by decide
+     P.postSendsCancellable && P.archiveWaitsForItsCaptures && watcherReturns P.diskWatcherOnStop && watcherReturns P.warcWatcherOnStop &&
+     P.insertWaitWokenByFreeze) = true := by decide
 
 /-- **Every stop moment × every configuration**: the run reaches the stop and the stop returns — no crash, no hang. -/
 theorem c03_stop_returns (c : Cfg) (m : Moment) : runAndStop A S U P c m = .returned := by
@@ -41,11 +42,17 @@ theorem c03_stop_returns (c : Cfg) (m : Moment) : runAndStop A S U P c m = .retu
   have h11 : P.archSendsCancellable = true := by decide
   have h12 : P.postSendsCancellable = true := by decide
   have h13 : P.archiveWaitsForItsCaptures = true := by decide
+  have h14 : watcherReturns P.diskWatcherOnStop = true := by decide
+  have h15 : watcherReturns P.warcWatcherOnStop = true := by decide
+  have h16 : P.insertWaitWokenByFreeze = true := by decide
+  have h17 : (P.diskWatcherOnStop == "missing") = false := by decide
+  have h18 : (P.warcWatcherOnStop == "missing") = false := by decide
   have hfs : firstSeed S c = .returned := by
     simp only [firstSeed, h4]
     cases c.seencheck <;> cases c.useHQ <;> simp
-  simp only [runAndStop, stopPipeline, archiverStop, workerStop, andThen, hfs, h1, h2, h3, h5, h6, h7, h8, h9, h10, h11, h12, h13]
-  cases m <;> simp
+  simp only [runAndStop, stopPipeline, archiverStop, workerStop, watchersStop, sourceStop, andThen, hfs, h1, h2, h3, h5, h6, h7, h8, h9, h10,
+    h11, h12, h13, h14, h15, h16, h17, h18]
+  cases m <;> simp [Moment.isPaused]
 
 /-- what the two shapes found in the pinned tree did: with `--proxy` only the proxied client exists and `Stop`
 dereferenced the direct one; with `--disable-seencheck` the store was consulted although never opened -/
@@ -59,5 +66,14 @@ theorem c03_old_shapes_crash :
   constructor
   · simp [archiverStop, workerStop, h2, h6, h11]
   · simp [firstSeed]
+
+/-- the shapes of two later seeded changes hang: a disk watcher that waits for free space before it returns (stop while it holds the
+pipeline paused), and a `ReceiveInsert` whose wait for a token does not listen to the freeze context (stop while the source is blocked) -/
+theorem c03_waiting_shapes_hang :
+    stopPipeline A U { P with diskWatcherOnStop := "mayWait" } {} .pausedByDiskWatcher =
+      .hang "the disk watcher holds the pipeline paused and waits for free space before it returns" ∧
+    stopPipeline A U { P with insertWaitWokenByFreeze := false } {} .sourceBlockedOnInsert =
+      .hang "the source's consumer is blocked in ReceiveInsert and Freeze does not wake it" := by
+  constructor <;> decide
 
 end Zeno.Props.C03
